@@ -1,11 +1,12 @@
-/* C03 (c): generic driver.  The unit defines FN(ctab)[] (void f(short, void *)), FN(nctab), FN(out)[18], FN(jmp); the
- * model's expected probe values (2 runs x 18 longs per case: jmp=0, jmp=1) come from the binary file argv[1]. */
+/* C03 (c): generic driver.  The unit defines FN(ctab)[] (void f(short, void *)), FN(nctab), FN(out)[NS], FN(jmp); per case
+ * the binary file argv[1] holds a flag (the model says the case is non-trivial: the name denotes at least two different
+ * things over the probe sites) and the model's expected probe values (2 runs x NS longs: jmp=0, jmp=1). */
 #include <stdio.h>
 #include <stdlib.h>
 #include <string.h>
 #include <setjmp.h>
 #include <signal.h>
-#define NS 18
+#define NS 44
 #define UNSET (-7777L)
 extern void (*cc_ctab[])(short, void *), (*ref_ctab[])(short, void *);
 extern int cc_nctab, ref_nctab, cc_jmp, ref_jmp;
@@ -18,10 +19,9 @@ int main(int argc, char **argv) {
   if (!f || fread(&n, sizeof n, 1, f) != 1 || n != cc_nctab || n != ref_nctab) { fprintf(stderr, "table mismatch\n"); return 72; }
   signal(SIGSEGV, on_sig); signal(SIGBUS, on_sig); signal(SIGILL, on_sig); signal(SIGFPE, on_sig);
   for (long i = 0; i < n; i++) {
-    long want[2][NS];
-    if (fread(want, sizeof want, 1, f) != 1) return 72;
-    int bad = 0, distinct = 0; long first = UNSET;
-    for (int k = 0; k < NS; k++) if (want[0][k] != UNSET) { if (first == UNSET) first = want[0][k]; else if (want[0][k] != first) distinct = 1; }
+    long want[2][NS], flag;
+    if (fread(&flag, sizeof flag, 1, f) != 1 || fread(want, sizeof want, 1, f) != 1) return 72;
+    int bad = 0, distinct = flag != 0;
     for (int mode = 0; mode < 2; mode++) {
       int any = 0;
       for (int k = 0; k < NS; k++) if (want[mode][k] != UNSET) any = 1;
